@@ -199,6 +199,32 @@ def piece_effects(ctx, prog):
         unc = [a for a in lvl if "blockhash_index" in a[1] and a != ("Lt", "CUR.blockhash_index", "internals::hash::block::block_hash::FULL_SIZE=64")]
         ctx.ob(RS, "%s: every level reached stores its piece and half char (no condition on the piece index)" % nm, not unc and atoms("half") == lvl,
                "conditions mentioning the index: %s" % unc, f.loc())
+        # ---- what the step may depend on ------------------------------------------------------------------------------------
+        # conditions on the way to any row mention only: the trigger value and its level variable, the level index, piece indices of
+        # the current/next context, bhidx_start/bhidx_end/bhidx_end_limit, roll_mask, is_last, and - in the elimination border test
+        # only - elim_border against fixed_size.unwrap_or(input_size)
+        hl = [l for l in range(f.argc + 1, len(f.locals)) if any(k == "rv" and canon(strip(sy.rvalue(x))).startswith("Div(core::num::<impl u32>::wrapping_add(internals::generate::hashes::rolling_hash::RollingHash::value(param:self.0.roll_hash),1),")
+                                                                  for (_b, _i, k, x) in f.defs.get(l, []))]
+        ok_locals = set(hl) | {li}
+        odd = []
+        for k in sorted(B):
+            for a in atoms(k):
+                txt = "%s %s" % (a[1], a[2])
+                if a[0] == "truth" and a[1].startswith("discr(") and "Iterator" in a[1]:
+                    continue
+                flds = set(re.findall(r"param:self\.0\.(\w+)", txt)) | ({"bh_context"} if ("CUR" in txt or "NXT" in txt) else set())
+                locs = set(int(n) for _nm, n in re.findall(r"local:(\w+?)_(\d+)(?!\w)", txt))
+                if flds & {"input_size", "fixed_size"} and not (a[0] == "Lt" and a[1] == "param:self.0.elim_border" and
+                                                                  a[2] == "core::option::Option::<T>::unwrap_or(param:self.0.fixed_size,param:self.0.input_size)"):
+                    odd.append("%s: %s" % (k, a))
+                elif flds - {"roll_hash", "roll_mask", "bh_context", "bhidx_end", "bhidx_start", "bhidx_end_limit", "is_last", "elim_border", "fixed_size", "input_size"}:
+                    odd.append("%s: %s" % (k, a))
+                elif locs - ok_locals:
+                    odd.append("%s: %s" % (k, a))
+                elif re.search(r"param:(?!self\b)\w+", txt):
+                    odd.append("%s: %s" % (k, a))
+        ctx.ob(RS, "%s: the step's conditions depend only on the trigger value, the level, piece indices, the active range / fork limit, roll_mask and is_last (sizes only in the elimination border test)" % nm,
+               not odd, "; ".join(sorted(set(odd)))[:400] or "conditions of %d rows inspected" % len(B), f.loc())
         # ---- orderings ---------------------------------------------------------------------------------------------------
         inc = [b for (b, _i, k, x) in f.defs.get(li, []) if canon(strip(sy.rvalue(x))) != "param:self.0.bhidx_start"]
         avoid = set(inc) | {H}
@@ -386,6 +412,29 @@ def digest_last_piece(ctx, prog):
             badp.append("%s at [%s]" % (r, idx))
     ctx.ob(RS, "finalize: the appended piece is written at the piece counter of its own context (or replaces slot FULL_SIZE-1 / HALF_SIZE-1 when the counter is at capacity)",
            not badp, "; ".join(badp) or "positions %s" % sorted(set(i for v in rows.values() for i in v)), f.loc())
+    # what the digest may depend on
+    odd = []
+    for i, j, s in f.stmts():
+        if s["s"] != "assign" or not s["lhs"]["p"]:
+            continue
+        p = N(canon(strip(sy.place(s["lhs"]))))
+        if not re.match(r"local:\w+\.(blockhash[12]\[|len_blockhash[12]$|log_blocksize$)", p):
+            continue
+        for a in atoms(i):
+            txt = "%s %s" % (a[1], a[2])
+            flds = set(re.findall(r"param:self\.0\.(\w+)", txt))
+            locs = set(int(n) for _nm, n in re.findall(r"local:(\w+?)_(\d+)(?!\w)", txt))
+            fz = set(int(n) for _nm, n in re.findall(r"local:(\w+?)_(\d+)\.(?:blockhash|len_blockhash)", txt))
+            if "input_size" in flds and not ("MAX_INPUT_SIZE" in txt or "fixed_size" in txt):
+                odd.append("%s under %s" % (p[:40], a))
+            elif flds - {"input_size", "fixed_size", "bhidx_end", "bh_context"}:
+                odd.append("%s under %s" % (p[:40], a))
+            elif (locs - fz) - set(sizes):
+                odd.append("%s under %s" % (p[:40], a))
+            elif set(re.findall(r"param:(?!self\b)(\w+)", txt)) - {"truncate"}:
+                odd.append("%s under %s" % (p[:40], a))
+    ctx.ob(RS, "finalize: what is written depends only on the block-size guess L, the rolling value, the piece counters, the half char / last slot of the chosen contexts, bhidx_end, the truncation flag and the output form (sizes only in the two refusals)",
+           not odd, "; ".join(sorted(set(odd)))[:400] or "conditions of all output stores inspected", f.loc())
     # lengths
     badl = []
     nlen = 0
